@@ -393,7 +393,7 @@ def chunk_never_empty(ctx, rule='C08-R2'):
         elif e.kind == 'mutcall':
             c = e.call
         if c is not None and tag(c) == 'mcall' and c[2] in ('drop', 'dropna', 'drop_duplicates', 'query', 'head', 'tail') \
-                and dict(c[4]).get('axis', C(0)) in (C(0), C('index')) and not dict(c[4]).get('columns'):
+                and dict(c[4]).get('axis', C(0)) in (C(0), C('index')) and 'columns' not in dict(c[4]):
             removers.append(e)
         if e.kind == 'assign' and tag(e.value) == 'mask' and tag(T.root(e.value)) in ('call', 'p', 'upd', 'mcall'):
             removers.append(e)
